@@ -1,3 +1,5 @@
+import json
+
 from circuits import Component, handler
 from circuits.core import Value
 from circuits.net.events import write
@@ -24,13 +26,24 @@ class Protocol(Component):
             self.__buffer += data
 
         packets = self.__buffer.split(DELIMITER)
-        self.__buffer = b''
+        # What follows the last delimiter may be the beginning of a packet
+        # (or of a delimiter) the rest of which has not been read yet.
+        self.__buffer = packets.pop()
 
         for packet in packets:
             try:
                 self.__process_packet(packet)
             except ValueError:
-                self.__buffer = packet
+                pass  # undecodable bytes
+
+        try:
+            json.loads(self.__buffer.decode('utf-8'))
+        except ValueError:
+            return  # incomplete, wait for more data
+
+        # a complete packet that is not (yet) followed by its delimiter
+        packet, self.__buffer = self.__buffer, b''
+        self.__process_packet(packet)
 
     @handler(channel='node_result', priority=100)
     def result_handler(self, event, *args, **kwargs):
